@@ -8,7 +8,10 @@ ones are built as real Python objects, decorated once and twice by a real LinePr
 used through the right access path (direct call, class attribute, instance attribute,
 property get/set/del, cached_property first/second read), from enable depth 0 and 1; every
 generator / coroutine / async-generator result is run to the end, closed early, thrown into and
-dropped while suspended, and its finally: code records the enable depth and is hit-counted;
+dropped while suspended, and its finally: code records the enable depth and is hit-counted; the
+same use is repeated from a worker thread while the main thread is inside a profiled section and
+vice versa (real threads, forced overlap); all functions of one kind inside one object are textually
+identical, same-named, same-line functions of different files (value-equal code objects);
 compared inside Coq with the model (registration list, structure of the returned objects,
 which functions run at which enable depth, executions) and with the property predicate
 (ran under the profiler, exact hit counts, registered once, second decoration inert)."""
@@ -144,6 +147,14 @@ def depth_of(t):
     if t[0] == 'pr':
         return 1 + max(depth_of(x) for x in t[1:4])
     return 1 + depth_of(t[1])
+
+
+def leaf_kind_list(t):
+    if t is None:
+        return []
+    if t[0] in ('fn', 'wr'):
+        return [t[1]]
+    return [k for x in t[1:] if isinstance(x, list) for k in leaf_kind_list(x)]
 
 
 def coq_term(t):
@@ -313,6 +324,12 @@ def run(tier, seed):
         depth_histogram=dh, top_constructor_histogram=th, case_kinds=kh,
         consumption_modes=(lambda h: h)({m: sum(r.get('modes', []).count(m) for r in outs) * 3
                                         for m in ('exhaust', 'close', 'throw', 'drop')}),
+        uses_from_a_worker_thread_while_main_is_inside_a_profiled_section=sum(
+            r.get('modes', []).count('thread:worker') for r in outs) * 3,
+        uses_in_main_thread_while_a_worker_is_inside_a_profiled_section=sum(
+            r.get('modes', []).count('thread:main') for r in outs) * 3,
+        cases_with_value_equal_code_objects_in_different_files=sum(
+            1 for c in cases if len(leaf_kind_list(c['term'])) != len(set(leaf_kind_list(c['term'])))),
         accesses_performed=sum(len(r.get('plan', [])) for r in outs) * 3,
         function_runs_observed=sum(len(depths(r['runs1'])) + len(depths(r['runs2'])) + len(depths(r['orig'])) for _, r in ok),
         hypothesis_counts=dict(
@@ -337,6 +354,7 @@ def run(tier, seed):
             'hit counts come from the tracing engine (C01); here they are only compared with exact execution counts of two '
             'marker lines per function (the second one inside the finally: clean-up code of generator / coroutine / '
             'async-generator bodies)'])
+    res.notes.append('threads: the executing thread\'s own enable depth is what the model\'s d denotes (per-thread counts: C05_threads)')
     res.assumptions = ['one profiler; compositions Python itself can use (e.g. a property accessor is callable); the functions inside '
                        'one object are pairwise distinct and were not decorated through another object before',
                        'setter / deleter accessors are plain functions (Python discards what they return)']
